@@ -346,7 +346,7 @@ func runRow(t *testing.T, e *env, r Row, tr *vtrace.Tracer, seed int64) {
 	if err := d.Commit(ctx); err != nil {
 		t.Fatal(err)
 	}
-	deadline := time.Now().Add(20 * time.Second)
+	deadline := time.Now().Add(120 * time.Second)
 	for defer1.Att() == 0 && time.Now().Before(deadline) {
 		time.Sleep(time.Millisecond)
 	}
@@ -356,7 +356,7 @@ func runRow(t *testing.T, e *env, r Row, tr *vtrace.Tracer, seed int64) {
 	select {
 	case got = <-e.cap.msgs:
 		out["delivered"] = true
-	case <-time.After(30 * time.Second):
+	case <-time.After(150 * time.Second):
 		out["note"] = "harness time-out waiting for the next hop"
 		q2.Close()
 		tr.Emit("Timeout", vtrace.Ev{"in": r.In})
